@@ -52,6 +52,7 @@
 -/
 import Y0.Lemmas.CfIdcStar
 import Y0.Lemmas.CfIdcTerm
+import Y0.Lemmas.CfIdcFrag
 import Y0.Props.C07
 
 namespace Y0.Cf
@@ -180,6 +181,83 @@ theorem idcstar_fuel_irrelevant (hk : SubsetOrder kordf) (outcomes conditions : 
   obtain ⟨r, hr, _⟩ := idcstar_own_recursion_terminates ordf dordf kordf G hk outcomes conditions hC hdis fuel hfuel
   rw [hr]; rfl
 
+/-! ## 2c. soundness on a named fragment -/
+
+/-- static part of the fragment, as an executable test: outcomes and conditions are dicts of FACTUAL variables of `G` with
+unstarred values, no variable name on both sides, at least one condition -/
+def fragCStaticB (G : MG Name) (O C : Event) : Bool :=
+  decide O.keys.Nodup && decide C.keys.Nodup &&
+  (O ++ C).all (fun p => decide (p.1 = Var.plain p.1.name) && decide (p.2 = ⟨p.1.name, false⟩) && decide (p.1.name ∈ G.nodes)) &&
+  O.keys.all (fun o => C.keys.all (fun c => decide (o.name ≠ c.name))) && !C.isEmpty
+
+/-- rule 2 applies to no condition (line 4 does not recurse) -/
+def noExchangeB (ordf : List World → List World) (G : MG Name) (O C : Event) : Bool :=
+  match makeCounterfactualGraph ordf G (O ++ C) with
+  | .ok (cf, some _) => (match firstExchangeable cf O.keys C.keys with | .ok none => true | _ => false)
+  | _ => true
+
+/-- ID*'s estimand for the joint event mentions exactly the event's variables: nothing was marginalised (no `Sum`, whose
+bound variable `Expression.conditional` would sum over a second time — what remains of F11) -/
+def estNamesB (ordf : List World → List World) (dordf : List Var → List Var) (G : MG Name) (O C : Event) : Bool :=
+  match idStar ordf dordf G (O ++ C) with
+  | .ok est => (exprNames est).all (fun n => decide (n ∈ (O ++ C).keys.map (·.name))) &&
+      ((O ++ C).keys.map (·.name)).all (fun n => decide (n ∈ exprNames est))
+  | .error _ => true
+
+/-- **The fragment of IDC\***: observational conditional queries `P(y | x)` (conjunctions of factual variables of `G`, unstarred
+values, outcome names ≠ condition names) on which rule 2 applies to no condition and ID* answers the joint event without
+marginalising a variable.  Decidable from the input (`inFragmentCB` runs the model's own test functions). -/
+def inFragmentCB (ordf : List World → List World) (dordf : List Var → List Var) (G : MG Name) (O C : Event) : Bool :=
+  fragCStaticB G O C && noExchangeB ordf G O C && estNamesB ordf dordf G O C
+
+def InFragmentC (ordf : List World → List World) (dordf : List Var → List Var) (G : MG Name) (O C : Event) : Prop :=
+  inFragmentCB ordf dordf G O C = true
+
+theorem fragC_of_static {O C : Event} (h : fragCStaticB G O C = true) : FragC G O C := by
+  simp only [fragCStaticB, Bool.and_eq_true, decide_eq_true_eq, List.all_eq_true, Bool.not_eq_true',
+    List.isEmpty_eq_false_iff] at h
+  obtain ⟨⟨⟨⟨h1, h2⟩, h3⟩, h4⟩, h5⟩ := h
+  exact ⟨h1, h2, fun p hp => (h3 p hp).1.1, fun p hp => (h3 p hp).1.2, fun p hp => (h3 p hp).2,
+    fun o ho c hc => h4 o ho c hc, h5⟩
+
+/-- **IDC\* is sound on the fragment.**  For every functional SCM `M` compatible with the (well-formed, loop-free) graph, with
+normalised noise and values bounded by `dom`, every base values `ν`: if `(outcomes, conditions)` is in the fragment and
+`idc_star` returns `e`, then `e` — read as in C07 (`cden`) with the event's values — EQUALS
+`P(outcomes ∧ conditions) / P(conditions)` (both sides are 0 when the conditions have probability 0: `x / 0 = 0`).
+Proof: on the fragment the counterfactual graph merges nothing, the re-association is the identity, so `e` is
+`est.conditional(condition names)` for ID*'s answer `est` to the joint event (`idcStarFuel_frag_path`); `est` is the joint
+probability for EVERY valuation of its free symbols (`idStarFuel_sound_frag`, C07), its normaliser sums exactly the outcome
+variables (the repaired `conditional`; `estNamesB` excludes the bound ranges of the open F11 part), which is the marginal of
+the conditions (`sumOver_prob`). -/
+theorem idcstar_sound_fragment (M : Model) (ν : BaseValues) (dom : Name → Nat) (hM : Compatible M G) (hnorm : M.Normalised)
+    (hdom : ∀ v ps us, M.f v ps us < dom v) (hG : G.WF) (hdl : ∀ e ∈ G.di, e.1 ≠ e.2) (hbl : ∀ e ∈ G.bi, e.1 ≠ e.2)
+    (hord : PermOrder ordf) (hdo : PermDistrict dordf)
+    (outcomes conditions : Event) (hfr : InFragmentC ordf dordf G outcomes conditions) (e : Expr)
+    (h : idcStar ordf dordf kordf G outcomes conditions = .ok e) :
+    cden M ν dom e (fun n => ν n false) = probEvent M ν (outcomes ++ conditions) / probEvent M ν conditions := by
+  unfold InFragmentC inFragmentCB at hfr
+  simp only [Bool.and_eq_true] at hfr
+  obtain ⟨⟨hst, hnx⟩, hnm⟩ := hfr
+  have hb : idcStarFuelBound G outcomes conditions =
+      (2 * (outcomes.length + conditions.length) + G.nodes.length + 3) + 1 := by
+    unfold idcStarFuelBound; omega
+  unfold idcStar at h
+  rw [hb] at h
+  apply idcStarFuel_sound_fragC ordf dordf kordf G M ν dom hM (fun pmf hp => (hnorm pmf hp).2) hdom hG hdl hbl hord hdo
+    (fragC_of_static G hst) ?_ ?_ _ e h
+  · intro cf nev hcg
+    unfold noExchangeB at hnx
+    rw [hcg] at hnx
+    simp only at hnx
+    split at hnx
+    · assumption
+    · cases hnx
+  · intro est hest
+    unfold estNamesB at hnm
+    rw [hest] at hnm
+    simp only [Bool.and_eq_true, List.all_eq_true, decide_eq_true_eq] at hnm
+    exact fun n => ⟨hnm.1 n, hnm.2 n⟩
+
 /-! ## 3. vocabulary (C06, IDC* part) -/
 
 /-- every estimand IDC* returns is built from single-world interventional terms -/
@@ -199,6 +277,16 @@ example : SubsetOrder (fun l : List Var => l) ∧
     (∀ o ∈ Event.keys [(⟨1, none, false, [⟨0, false⟩]⟩, ⟨1, false⟩)],
       ∀ c ∈ Event.keys [(⟨2, none, false, []⟩, ⟨2, false⟩)], o.name ≠ c.name) := by
   refine ⟨fun _ _ h => h, by decide, by decide⟩
+
+/-- the fragment is not empty: `P(Y = y | X = x)` on the bow graph `X → Y`, `X ↔ Y` (X=0, Y=1; rule 2 does not apply, the
+answer is `P(X, Y) / Σ_Y P(X, Y)`), and `P(X = x | Y = y)` on `X → Y` -/
+example : inFragmentCB sortWorlds (sortBy Var.keyLt) (MG.fromEdges [0, 1] [(0, 1)] [(0, 1)])
+    [(Var.plain 1, ⟨1, false⟩)] [(Var.plain 0, ⟨0, false⟩)] = true := by decide
+example : inFragmentCB sortWorlds (sortBy Var.keyLt) (MG.fromEdges [0, 1] [(0, 1)] [])
+    [(Var.plain 0, ⟨0, false⟩)] [(Var.plain 1, ⟨1, false⟩)] = true := by decide
+/-- … and `P(Y = y | X = x)` on `X → Y` is outside it (rule 2 applies: line 4 recurses) -/
+example : inFragmentCB sortWorlds (sortBy Var.keyLt) (MG.fromEdges [0, 1] [(0, 1)] [])
+    [(Var.plain 1, ⟨1, false⟩)] [(Var.plain 0, ⟨0, false⟩)] = false := by decide
 
 /-- the order the correspondence check uses for the re-associated keys satisfies the hypothesis on `kordf` -/
 example (rev : Bool) : SubsetOrder (orderDistrict rev) := subsetOrder_orderDistrict rev
